@@ -63,16 +63,18 @@ def run(chk: Check) -> int:
             break
         rng = chk.rng("case", k)
         col.add(I.run_case(random_fault_spec(rng, not chk.quick), I.RandomSched(rng)), f"seed{chk.seed}/{k}")
-    # exhaustive fault plans: every assignment of success/failure to the first retries+2 evaluations of
+    # exhaustive fault plans: every assignment of success/failure to the first retries+1 evaluations of
     # each point, both raise settings, all runner kinds; every schedule (subsets, one order) for each
     exh = {}
     if chk.quick:
         plans = [(kind, 2, 2, R, rz) for kind in I.KINDS for R in (0, 1) for rz in (True, False)]
     else:
         plans = [(kind, nt, T, R, rz) for kind in I.KINDS for nt in (1, 2, 3) for T in (1, 2, 3)
-                 for R in (0, 1, 2) for rz in (True, False) if (R + 2) * T <= 9]
+                 for R in (0, 1, 2) for rz in (True, False) if (R + 1) * T <= 9 and nt <= T + 1]
     for kind, nt, T, R, rz in plans:
-        keys = [f"{pt}:{att}" for pt in range(T) for att in range(1, R + 3)]
+        # attempts 1..retries+1 are all that correct code ever starts; a retries+2-nd evaluation (started only
+        # by over-retrying code, which the evaluation count and the model catch at its submission) succeeds
+        keys = [f"{pt}:{att}" for pt in range(T) for att in range(1, R + 2)]
         cnt = 0
         for bits in itertools.product((False, True), repeat=len(keys)):
             if col.enough():
@@ -96,7 +98,7 @@ def run(chk: Check) -> int:
     return chk.finish(
         rule="real runners under the controlled scheduler with fault plans (iid / stubborn points / first attempt fails / all but the "
              "last allowed attempt fail), retries 0..3, both raise settings, random schedules; plus every success/failure assignment "
-             "to the first retries+2 evaluations of each point for small runs, every completion subset; non-trivial = at least one "
+             "to the first retries+1 evaluations of each point for small runs, every completion subset; non-trivial = at least one "
              "retried evaluation and (a point exhausted its retries or >= 2 failures); distinct by (spec, schedule)",
         assumptions=["hand-written model Model/Runner.v tied to adaptive/runner.py by the sampled + small-scope-exhaustive correspondence",
                      "traceback texts are not modelled (the oracle checks that the stored traceback names the exception)",
